@@ -250,6 +250,11 @@ fn observe_inner(args: &Value) -> Value {
             }
             put!("res", hilo(x));
             put!("stripped", hilo(x.strip_multiples_flags()));
+            // C20: the rank, suit, prime and characters of the marked word read the same as those of the word
+            // itself (code against code; what they are for a card is C10's statement)
+            let reads = |v: u32| (format!("{:?}", v.get_card_rank()), format!("{:?}", v.get_card_suit()), v.get_rank_prime(), v.get_rank_bit(), v.get_rank_flag(),
+                                  v.get_suit_bit(), v.get_suit_flag(), v.get_rank_char(), v.get_suit_char(), v.get_suit_letter());
+            put!("same_reads", json!(reads(x) == reads(w)));
         }
         "shift_word" => {
             let w = from_hilo(&args["w"]);
